@@ -68,18 +68,19 @@ def last_begun(progress):
     return cur
 
 
-def run_shard(idx, keys, base, events):
+def run_shard(idx, keys, base, events, mm_keys=()):
     """one worker process per shard; a crash (signal) or hang is attributed to the entry point in progress, triaged in
     a guarded re-run (every call first in a forked child), retried in safe mode when the scalar binding crashes too,
     and the shard continues with the remaining entry points."""
     out = os.path.join(WD, "out%d.jsonl" % idx)
     round_ = 0
     keys = list(keys)
+    mm = list(mm_keys)
     safe = []
-    while keys and round_ < 40:
+    while (keys or mm) and round_ < 40:
         round_ += 1
         prog = os.path.join(WD, "prog%d_%d.txt" % (idx, round_))
-        opts = dict(base, keys=keys, progress=prog, safe_keys=safe)
+        opts = dict(base, keys=keys, progress=prog, safe_keys=safe, mm_keys=mm)
         op = os.path.join(WD, "opts%d_%d.json" % (idx, round_))
         json.dump(opts, open(op, "w"))
         rc, so, se = harness(["run", op, out], timeout=base["worker_timeout"])
@@ -87,6 +88,13 @@ def run_shard(idx, keys, base, events):
             return
         bad = last_begun(prog)
         events.append({"shard": idx, "rc": rc, "entry": bad, "stderr": se[-1500:]})
+        if bad is not None and bad not in keys and bad in mm:
+            # died in the length-mismatch-only part: guarded re-run of that entry point, then go on
+            top = os.path.join(WD, "triage%d_%d.json" % (idx, round_))
+            json.dump(dict(base, keys=[], mm_keys=[bad], guard=True, progress=None), open(top, "w"))
+            harness(["run", top, out], timeout=base["worker_timeout"])
+            keys, mm = [], mm[mm.index(bad) + 1:]
+            continue
         if bad is None or bad not in keys:
             events.append({"shard": idx, "fatal": "worker died outside an entry point", "stderr": se[-1500:]})
             return
@@ -97,7 +105,7 @@ def run_shard(idx, keys, base, events):
             continue
         # triage in guarded mode
         top = os.path.join(WD, "triage%d_%d.json" % (idx, round_))
-        json.dump(dict(base, keys=[bad], guard=True, progress=None, safe_keys=safe), open(top, "w"))
+        json.dump(dict(base, keys=[bad], guard=True, progress=None, safe_keys=safe, mm_keys=[]), open(top, "w"))
         rc2, so2, se2 = harness(["run", top, out], timeout=base["worker_timeout"])
         if rc2 != 0:
             events.append({"triage_failed": bad, "rc": rc2, "stderr": se2[-800:]})
@@ -207,10 +215,14 @@ def run(chk):
     rng = chk.rng
     rng.shuffle(sel)
     shards = [sel[i::nproc] for i in range(nproc)]
+    selset = set(sel)
+    mm_all = [e["key"] for e in todo if e.get("n_arrays", 0) >= 2 and e["key"] not in selset]
+    mm_shards = [mm_all[i::nproc] for i in range(nproc)]
+    chk.extra["selection"]["length_mismatch_only(entry points with >= 2 array arguments not selected above)"] = len(mm_all)
     events = []
     t1 = time.time()
     with ThreadPoolExecutor(max_workers=nproc) as ex:
-        futs = [ex.submit(run_shard, i, sh, base, events) for i, sh in enumerate(shards) if sh]
+        futs = [ex.submit(run_shard, i, sh, base, events, mm_shards[i]) for i, sh in enumerate(shards) if sh or mm_shards[i]]
         for f in futs:
             f.result()
     chk.extra["harness_wall_s"] = round(time.time() - t1, 1)
@@ -222,7 +234,7 @@ def run(chk):
     rcm, som, sem = harness(["model", mop, mout], timeout=600)
 
     # ---- aggregate -------------------------------------------------------------------------------------------
-    eps, viols, crashes, herr, stats, safe_keys, model = {}, [], [], [], [], set(), None
+    eps, viols, crashes, herr, stats, safe_keys, model, mms = {}, [], [], [], [], set(), None, []
     for f in glob.glob(os.path.join(WD, "out*.jsonl")) + [mout]:
         if not os.path.exists(f):
             continue
@@ -235,6 +247,8 @@ def run(chk):
             if t == "ep":
                 if d["key"] not in eps or not d.get("crashed_signal"):
                     eps[d["key"]] = d
+            elif t == "mm":
+                mms.append(d)
             elif t == "viol":
                 viols.append(d)
             elif t == "crash":
@@ -284,8 +298,11 @@ def run(chk):
         "elements_skipped_nonfinite_single_vs_double": sum(e.get("scalar_nonfinite_skipped", 0) for e in done),
         "max_accepted_deviation_vs_scalar(ulps of the element's largest component; beyond the tolerance: units of the first-order sum-of-absolute-terms estimate)": max([e["scalar_ulp_max"] for e in done if e["scalar_ulp_max"] < 10 ** 9] + [0]),
         "ulp_tolerance": ULP_TOL,
-        "length_mismatch_cases": sum((e.get("mismatch_len") or {}).get("cases", 0) for e in done),
-        "length_mismatch_raised": sum((e.get("mismatch_len") or {}).get("raised", 0) for e in done),
+        "length_mismatch_cases(entry point, array argument position, shorter/longer)": sum((e.get("mismatch_len") or {}).get("cases", 0) for e in done + mms),
+        "length_mismatch_entry_points(>= 2 array arguments; ALL of them in every tier)": sum(1 for e in done + mms if e.get("mismatch_len")),
+        "length_mismatch_calls": sum((e.get("mismatch_len") or {}).get("calls", 0) for e in done + mms),
+        "length_mismatch_calls_raised": sum((e.get("mismatch_len") or {}).get("raised", 0) for e in done + mms),
+        "partitions_with_reused_worker_ids": sum(e.get("tid_reuse_partitions", 0) for e in done),
         "entry_points_rerun_in_safe_mode_after_a_crash_the_scalar_binding_reproduces": sorted(safe_keys),
     }
     chk.extra["serial_entry_points_sample"] = serial[:25]
@@ -298,7 +315,7 @@ def run(chk):
     grouped = collections.OrderedDict()
     for v in viols:
         byk[v["kind"]] += 1
-        k = v["key"].split(":", 1)[1] if v["kind"] != "model" else v["key"]
+        k = v["key"] if (v["kind"] == "model" or v["key"].startswith("length-mismatch-not-raised:")) else v["key"].split(":", 1)[1]
         grouped.setdefault(k, []).append(v)
     for k, vs in grouped.items():
         kinds_ = sorted(set(v["kind"] for v in vs))
